@@ -96,3 +96,4 @@ Lemma quote_passthrough_refuted :
   pg_quote (bs "'a''") = bs "'a''" /\ lit_closed opts_postgres (pg_quote (bs "'a''")) = false
   /\ mysql_quote [] (bs "'a\'") = bs "'a\'" /\ lit_closed opts_mysql (mysql_quote [] (bs "'a\'")) = false.
 Proof. vm_compute. repeat split; reflexivity. Qed.
+
